@@ -130,6 +130,26 @@ pub fn run(args: &Args) {
             }
         });
 
+        // --- read-only opens of files whose length does not match the stored layout (extended by
+        // a copy tool, cut off): whatever the answer, nothing may be written, resized or synced,
+        // and the open must not panic
+        for (name, delta) in [("readonly-extended-1page", cfg.page as i64), ("readonly-extended-odd", 777), ("readonly-extended-region", cfg.region as i64), ("readonly-truncated-1page", -(cfg.page as i64)), ("readonly-truncated-half", -((clean.len() / 2) as i64))] {
+            let mut img = clean.clone();
+            if delta >= 0 {
+                img.extend(std::iter::repeat(0u8).take(delta as usize));
+            } else {
+                img.truncate((img.len() as i64 + delta).max(0) as usize);
+            }
+            scenario(&mut out, name, &img, true, |b| {
+                match redb::ReadOnlyDatabase::verif_open_with_backend(b.clone(), cfg.page, Some(cfg.region), cfg.cache) {
+                    Ok(db) => {
+                        let r = db.begin_read().map_err(|e| format!("{e:?}")).and_then(|rt| read_all(&rt)).map(|m| m.digest()).unwrap_or_else(|e| e.chars().take(40).collect());
+                        format!("ok:{r}")
+                    }
+                    Err(e) => format!("err:{}", err_tag(e)),
+                }
+            });
+        }
         // --- failing opens
         let mut bad_magic = clean.clone();
         bad_magic[3] ^= 0xff;
